@@ -110,7 +110,12 @@ def run_kani_group(ctx, group):
     target = os.path.join(gdir, "t")
     kargs = list(gcfg.get("kani_args", []))
     log("[%s] building harness group %s against a fresh copy of %s" % (ctx.prop, group, tree.REPO))
-    hs, bt = kanirun.build_group(hdir, target, os.path.join(logdir, "_build.log"), kargs)
+    skipped = {}
+    hs, bt = kanirun.build_group(hdir, target, os.path.join(logdir, "_build.log"), kargs, skipped)
+    for m, why in sorted(skipped.items()):
+        # a harness family that no longer compiles against the current tree cannot decide anything: inconclusive
+        log("[%s] %s: harness module %s does not compile against the current tree and was left out: %s" % (ctx.prop, group, m, why))
+        ctx.inconclusive.append("%s::%s does not compile against the current tree (%s)" % (group, m, why))
     sel = select(hs, ctx.prop, ctx.tier, ctx.only)
     if not sel and not ctx.only and ctx.tier == "quick" and select(hs, ctx.prop, "thorough", None):
         # the group only has thorough-tier harnesses for this property: nothing to run in the quick tier
